@@ -476,7 +476,17 @@ func (u *storeUnderTest) kindSafeIndex() int {
 }
 
 func (u *storeUnderTest) ranks() []float64 {
-	return u.exp().ProbeRanks(u.bud.HalfQuantum(), 10)
+	return probeRanksFor(u.exp(), u.bud)
+}
+
+// probeRanksFor: rank probes at cumulative boundaries; fewer of them when the store holds many bins (the sparse
+// store sorts all its bins at every KeyAtRank call).
+func probeRanksFor(e model.Map, bud *model.Budget) []float64 {
+	n := 10
+	if len(e) > 100 {
+		n = 3
+	}
+	return e.ProbeRanks(bud.HalfQuantum(), n)
 }
 
 func (u *storeUnderTest) snapshot() obs.StoreObs { return obs.Store(u.s, u.ranks()) }
@@ -484,7 +494,7 @@ func (u *storeUnderTest) snapshot() obs.StoreObs { return obs.Store(u.s, u.ranks
 // invariant compares the full observation with the model's.
 func (u *storeUnderTest) invariant() string {
 	e := u.exp()
-	ranks := e.ProbeRanks(u.bud.HalfQuantum(), 10)
+	ranks := probeRanksFor(e, u.bud)
 	got := obs.Store(u.s, ranks)
 	if d := obs.DiffStore(got, obs.ExpectStore(e, ranks)); d != "" {
 		return d
